@@ -1408,7 +1408,20 @@ def while_to_for(fn, types):
 
 
 _UW = [0]
-_TYPES = [None]
+class _ThreadLocalSlot:
+    """a one-element list per thread (the pre-passes run concurrently on different programs in the self-test drivers)"""
+    def __init__(self):
+        import threading
+        self._tl = threading.local()
+
+    def __getitem__(self, i):
+        return getattr(self._tl, "v", None)
+
+    def __setitem__(self, i, v):
+        self._tl.v = v
+
+
+_TYPES = _ThreadLocalSlot()
 
 
 def option_combinators(fn):
